@@ -171,6 +171,12 @@ EmitSeq ==
     status = "finished" =>
         PrintT("WSEQ " \o ToString(<<inserts, vls,
                  [i \in 1..Len(emitted) |-> <<emitted[i].off, emitted[i].usize, Len(emitted[i].keys)>>]>>))
+\* the writer only ever appends: blocks already emitted never change and the offset never decreases
+\* (what a crashed writer leaves behind is a prefix of what it would have written)
+AppendOnly ==
+    [][/\ Len(emitted') >= Len(emitted)
+       /\ SubSeq(emitted', 1, Len(emitted)) = emitted
+       /\ count' >= count]_wvars
 \* sorted input never panics
 SortedNeverPanics == (status = "panicked") => ~Ascending(inserts)
 \* C18: whatever was inserted, a finished file only has ascending blocks
